@@ -64,6 +64,13 @@ def get_chunk_dtype_transformer(input_dtype, output_dtype, warn=True):
         and not np.can_cast(input_dtype, output_dtype, casting="safe")
     )
 
+    # A narrowing floating-point conversion (float64 to float32) would turn
+    # finite values beyond the output range into infinities.
+    saturate_float = (np.issubdtype(output_dtype, np.floating)
+                      and np.issubdtype(input_dtype, np.floating)
+                      and not np.can_cast(input_dtype, output_dtype,
+                                          casting="safe"))
+
     # The maximum of a 64-bit integer type is not representable in the
     # floating-point work type (it rounds up to 2**64, which wraps to 0 in the
     # final cast), so these values must be saturated explicitly.
@@ -97,6 +104,10 @@ def get_chunk_dtype_transformer(input_dtype, output_dtype, warn=True):
                 ret = chunk.astype(output_dtype, casting="unsafe")
                 ret[too_big] = output_max
                 return ret
+        if saturate_float:
+            float_max = np.finfo(output_dtype).max
+            chunk = np.where(np.isinf(chunk), chunk,
+                             np.clip(chunk, -float_max, float_max))
         return chunk.astype(output_dtype, casting="unsafe")
 
     return chunk_transformer
